@@ -414,4 +414,18 @@ bool FFIManager::isForeignModuleLoaded(const std::string &module_name) const {
     return loaded_libraries_.find(module_name) != loaded_libraries_.end();
 }
 
+TypeInfo FFIManager::getReturnType(const std::string &module_name,
+                                   const std::string &function_name) const {
+    for (const auto &module_pair : function_signatures_) {
+        if (!module_name.empty() && module_pair.first != module_name) {
+            continue;
+        }
+        auto it = module_pair.second.find(function_name);
+        if (it != module_pair.second.end()) {
+            return it->second.return_type;
+        }
+    }
+    return TYPE_UNKNOWN;
+}
+
 } // namespace cb
